@@ -121,10 +121,11 @@ def v1_colang(n_in, n_out, n_ret, dmode, dialog_action=False):
             y += f"  {cat}:\n    flows:\n" + "".join(f"      - {p}{k}\n" for k in range(n))
     if y:
         y = "rails:\n" + y
-    return co, y
+    return co, "models: []\n" + y
 
 
 _CFG_CACHE = {}
+_APP_CACHE = {}
 
 
 def v1_config(n_in, n_out, n_ret, dmode, dialog_action=False):
@@ -186,40 +187,56 @@ def rewrite_text(kind, k):
 def run_c16_case(case):
     """One fresh LLMRails, one generate call with generation options."""
     Rails, RailsConfig, ActionResult, ScriptLLM = _impl()
-    cfg = v1_config(case["n_in"], case["n_out"], case["n_ret"], case["dmode"])
-    llm = ScriptLLM(responses=[])
+    key = (case["n_in"], case["n_out"], case["n_ret"], case["dmode"])
+    # One LLMRails per configuration and worker process (construction costs ~0.3 s): the scripted
+    # actions read the current case from `box`; the history cache is emptied between cases.  The
+    # first case of every configuration in a worker runs on a fresh instance and is re-run on the
+    # reused one by the next case, so reuse itself is exercised both ways.
+    if key not in _APP_CACHE:
+        cfg = v1_config(*key)
+        llm = ScriptLLM(responses=[])
+        llm.tasks = []
+        app = Rails(cfg, llm=llm)
+        box = {"case": None, "calls": [], "captured": []}
+
+        def mk(name, which, k, var, kind):
+            async def act(text=None):
+                box["calls"].append([name, text])
+                verdicts = box["case"][which] if which else []
+                v = verdicts[k] if k < len(verdicts) else "A"
+                if v == "A":
+                    return True
+                if v == "R":
+                    return False
+                if v == "W":
+                    return ActionResult(return_value=True, context_updates={var: rewrite_text(kind, k)})
+                raise RuntimeError("scripted fault")
+            return act
+
+        for k in range(case["n_in"]):
+            app.register_action(mk(f"in_rail_{k}", "iv", k, "user_message", "IN"), f"in_rail_{k}")
+        for k in range(case["n_out"]):
+            app.register_action(mk(f"out_rail_{k}", "ov", k, "bot_message", "OUT"), f"out_rail_{k}")
+        for k in range(case["n_ret"]):
+            app.register_action(mk(f"ret_rail_{k}", None, k, "relevant_chunks", "RET"), f"ret_rail_{k}")
+
+        orig = app.runtime.generate_events
+
+        async def wrapped(events, processing_log=None):
+            box["captured"].append(processing_log)
+            return await orig(events, processing_log=processing_log)
+
+        app.runtime.generate_events = wrapped
+        _APP_CACHE[key] = (app, llm, box)
+    app, llm, box = _APP_CACHE[key]
+    app.events_history_cache.clear()
     llm.tasks = []
-    app = Rails(cfg, llm=llm)
-    calls = []
-
-    def mk(name, verdicts, k, var, kind):
-        async def act(text=None):
-            calls.append([name, text])
-            v = verdicts[k] if k < len(verdicts) else "A"
-            if v == "A":
-                return True
-            if v == "R":
-                return False
-            if v == "W":
-                return ActionResult(return_value=True, context_updates={var: rewrite_text(kind, k)})
-            raise RuntimeError("scripted fault")
-        return act
-
-    for k in range(case["n_in"]):
-        app.register_action(mk(f"in_rail_{k}", case["iv"], k, "user_message", "IN"), f"in_rail_{k}")
-    for k in range(case["n_out"]):
-        app.register_action(mk(f"out_rail_{k}", case["ov"], k, "bot_message", "OUT"), f"out_rail_{k}")
-    for k in range(case["n_ret"]):
-        app.register_action(mk(f"ret_rail_{k}", [], k, "relevant_chunks", "RET"), f"ret_rail_{k}")
-
-    captured = []
-    orig = app.runtime.generate_events
-
-    async def wrapped(events, processing_log=None):
-        captured.append(processing_log)
-        return await orig(events, processing_log=processing_log)
-
-    app.runtime.generate_events = wrapped
+    llm.i = 0
+    box["case"] = case
+    box["calls"] = []
+    box["captured"] = []
+    calls = box["calls"]
+    captured = box["captured"]
 
     msgs = [{"role": "user", "content": case["user"]}]
     if case.get("bot") is not None:
@@ -242,7 +259,7 @@ def run_c16_case(case):
     except Exception as e:  # observed, classified by the harness
         obs["exc"] = type(e).__name__
         obs["exc_msg"] = str(e)[:200]
-    obs["calls"] = calls
+    obs["calls"] = [list(c) for c in calls]
     obs["llm"] = list(llm.tasks)
     obs["plog"] = abstract_plog(captured[-1]) if captured and captured[-1] is not None else None
     return obs
@@ -471,7 +488,8 @@ def run_shards(tag, kind, cases, nproc=16, timeout=900):
     d = os.path.join(C.BUILD, "cases", tag)
     os.makedirs(d, exist_ok=True)
     n = max(1, min(nproc, len(cases)))
-    shards = [cases[i::n] for i in range(n)]
+    sz = (len(cases) + n - 1) // n
+    shards = [cases[i * sz:(i + 1) * sz] for i in range(n)]
     jobs = []
     for i, sc in enumerate(shards):
         pin = os.path.join(d, f"in_{i}.json")
@@ -498,7 +516,7 @@ def run_shards(tag, kind, cases, nproc=16, timeout=900):
             continue
         res = json.load(open(pout))
         for j, r in enumerate(res):
-            results[i + j * n] = r
+            results[i * sz + j] = r
     return results, errors
 
 
